@@ -114,7 +114,7 @@ static uint64_t alias_fx(Rng & r, uint64_t v, AliasKind & kind)
     case AL_HIGH: return (v & ~0xffffull) | r.below(1u << 16);
     case AL_FOLD: { uint64_t m = r.chance(50) ? k : (r.next() & 0xffffffffull); return v ^ m ^ (m << 32); }
     case AL_BIT: return v ^ (1ull << r.below(64));
-    case AL_NEG: return static_cast<uint64_t>(-static_cast<int64_t>(v));
+    case AL_NEG: return 0 - v;
     case AL_PI: return up ? v + k * PHI_RAW : v - k * PHI_RAW;
     case AL_2PI: return up ? v + k * 2 * PHI_RAW : v - k * 2 * PHI_RAW;
     case AL_HIGH8: return (v & ~0xffull) | r.below(256);
@@ -137,7 +137,7 @@ static uint64_t fresh_arg(Rng & r, Kind k)
       case 2: v = static_cast<int64_t>(r.below(721)) - 360; break;
       default: v = static_cast<int64_t>(r.next()); break;
       }
-    if (!is_signed && v < 0) v = -v;
+    if (!is_signed && v < 0) return 0 - static_cast<uint64_t>(v);
     return static_cast<uint64_t>(v);       // the operation truncates to its operand type
     };
   switch (k)
